@@ -21,6 +21,7 @@ const (
 	SRefL // *list
 	SRefO // *object
 	SUnk
+	SPerm // (Array Int Int), a ghost permutation
 )
 
 func (s Sort) smt() string {
